@@ -27,7 +27,7 @@ EXPLANATION = "symbolic execution of token/encoding/encryption code with hashes 
 
 
 # ---- token ---------------------------------------------------------------------------------------------------------------
-class RopeStr(object):
+class RopeStr(core.Sym):
     """a phone-number string of symbolic length whose only use is .encode()"""
 
     def __init__(self, rope):
@@ -61,6 +61,39 @@ def h_token(ctx, lmax):
     phone = "".join("0123456789"[(i * 7 + 3) % 10] for i in range(L))
     return [("token == b64(SHA1(opad || SHA1(ipad || signature || classes || phone)))",
              env.getToken(phone) == R.token(E.AndroidYowsupEnv._KEY, E.AndroidYowsupEnv._SIGNATURE, E.AndroidYowsupEnv._MD5_CLASSES, phone))]
+
+
+def h_token_twice(ctx, n1, n2):
+    """two requests in one process: each token is a function of its own phone-number STRING (nothing carried over)"""
+    import base64
+    import yowsup.env.env_android as E
+    from ref import wa_registration_ref as R
+    d1 = [ctx.int("a_%d" % i, 48, 57) for i in range(n1)]
+    d2 = [ctx.int("b_%d" % i, 48, 57) for i in range(n2)]
+    env = E.AndroidYowsupEnv()
+    for k_, v in list(vars(E.AndroidYowsupEnv).items()) + list(vars(E.AndroidYowsupEnv.__mro__[1]).items()):
+        if isinstance(v, dict) and not k_.startswith("__"):
+            v.clear()                      # class-level containers do not survive from one explored path to the next
+    if H.sym(ctx):
+        E.hashlib, E.base64 = M.M_hashlib, M.M_base64
+        p1, p2 = SymStr([SymChar(c) for c in d1]), SymStr([SymChar(c) for c in d2])
+        env.getToken(p1)
+        out = env.getToken(p2)
+        key = base64.b64decode(E.AndroidYowsupEnv._KEY)
+        sig = base64.b64decode(E.AndroidYowsupEnv._SIGNATURE)
+        cls_ = base64.b64decode(E.AndroidYowsupEnv._MD5_CLASSES)
+        ipad = bytes(0x36 ^ k for k in key[:64])
+        opad = bytes(0x5C ^ k for k in key[:64])
+        inner = Term("hash", "sha1", M.rope(ipad + sig + cls_) + SymSeq(d2, "bytes"))
+        inner.size = 20
+        outer = Term("hash", "sha1", M.rope(opad) + M.tblob(inner, 20))
+        outer.size = 20
+        ref = M.M_base64.b64encode(M.tblob(outer, 20))
+        return [("second token == keyed hash of the second phone number", H.rope_eq(M.rope(out), ref))]
+    p1, p2 = "".join(chr(c) for c in d1), "".join(chr(c) for c in d2)
+    env.getToken(p1)
+    return [("second token == keyed hash of the second phone number",
+             env.getToken(p2) == R.token(E.AndroidYowsupEnv._KEY, E.AndroidYowsupEnv._SIGNATURE, E.AndroidYowsupEnv._MD5_CLASSES, p2))]
 
 
 # ---- percent-encoding ------------------------------------------------------------------------------------------------------
@@ -209,12 +242,40 @@ def h_encrypt(ctx):
     from cryptography.hazmat.primitives.ciphers.aead import AESGCM
     import base64, struct
     server = Curve.generateKeyPair()
+    # bytes of the (uninterpreted) ephemeral public keys that the violating path looked at: draw real key pairs until they match
+    wants = [v for k, v in sorted(ctx.values.items()) if k.startswith("arr!") and "pubkey" in k and "fresh" in k]
+
+    class _Curve(object):
+        n = [0]
+
+        def __getattr__(self, a):
+            return getattr(Curve, a)
+
+        def generateKeyPair(self):
+            want = wants[self.n[0]] if self.n[0] < len(wants) else {}
+            self.n[0] += 1
+            if len(want) > 2:
+                raise core.Unrealisable("a key pair whose public key has %d given bytes" % len(want))
+            for _ in range(1 << 20):
+                kp = Curve.generateKeyPair()
+                pub = kp.getPublicKey().serialize()[1:]
+                if all(pub[int(i)] == v for i, v in want.items()):
+                    return kp
+            raise core.Unrealisable("no matching key pair in 2^20 draws")
+    WR.Curve = _Curve()
     p1 = req.encryptParams(params, server.getPublicKey())
     p2 = req.encryptParams(params, server.getPublicKey())
     raw = base64.b64decode(p1[0][1])
     eph = Curve.decodePoint(bytearray(b"\x05" + raw[:32]), 0)
     shared = Curve.calculateAgreement(eph, server.getPrivateKey())
-    pt = AESGCM(shared).decrypt(b"\x00\x00\x00\x00" + struct.pack(">Q", 0), raw[32:], b"")
+    try:
+        pt = AESGCM(shared).decrypt(b"\x00\x00\x00\x00" + struct.pack(">Q", 0), raw[32:], b"")
+    except Exception:
+        pt = None
+    finally:
+        WR.Curve = Curve
+    if pt is None:
+        return [("payload starts with the 32-byte ephemeral public key", False)]
     return [("one ENC parameter", len(p1) == 1 and p1[0][0] == "ENC"),
             ("server decrypts to exactly the encoded parameter string", pt.decode() == W.urlencodeParams(params)),
             ("fresh ephemeral key per call", base64.b64decode(p2[0][1])[:32] != raw[:32])]
@@ -223,6 +284,8 @@ def h_encrypt(ctx):
 def cases(tier):
     q = tier == "quick"
     cs = [dict(name="token[L<=64]", fn=h_token, args=(64,)), dict(name="encode-int", fn=h_encode_int), dict(name="encrypt", fn=h_encrypt)]
+    for n1, n2 in (((1, 2), (2, 1), (2, 2)) if q else ((1, 2), (2, 1), (2, 2), (3, 2), (2, 3), (3, 3), (4, 3))):
+        cs.append(dict(name="token-twice[%d,%d digits]" % (n1, n2), fn=h_token_twice, args=(n1, n2)))
     cs.append(dict(name="encode-str[n=1,unicode]", fn=h_encode_str, args=(1,), weight=20, timeout_s=300, max_paths=400000))
     cs.append(dict(name="encode-str[n=2,ascii+ascii]", fn=h_encode_str, args=(2, [0x7F, 0x7F]), weight=100, timeout_s=300 if q else 3000, max_paths=400000))
     cs.append(dict(name="encode-str[n=2,unicode+ascii]", fn=h_encode_str, args=(2, [0x10FFFF, 0x7F]), weight=300, timeout_s=400 if q else 3000, max_paths=400000))
